@@ -25,7 +25,9 @@ var migrations = [dbVersion]MigrationStep{
 		it := txn.NewIterator(badger.DefaultIteratorOptions)
 		defer it.Close()
 		for it.Seek(prefix); it.ValidForPrefix(prefix); it.Next() {
-			key := it.Item().Key()
+			// The key is only valid until Next, and Delete keeps the slice
+			// until the transaction commits.
+			key := it.Item().KeyCopy(nil)
 			txn.Delete(key)
 		}
 
